@@ -108,8 +108,9 @@ def gen_case(rng, tier, kind=None):
             # equidistant from two centroids are common, and every sum is exact
             d = min(d, rng.randint(1, 2))
             rs_ = np.random.RandomState(rng.getrandbits(32))
-            X = rs_.randint(-3, 4, size=(n, d)).astype(float)
-            case["grid"] = True
+            step = rng.choice([1.0, 1.0, 0.5, 0.25, 2.0])  # dyadic steps keep every sum exact
+            X = rs_.randint(-3, 4, size=(n, d)).astype(float) * step
+            case["grid"] = step
         case["X"] = L(X)
         case["chunks"] = _gen_chunks(rng, n, many=huge)
         if rows_tail:
@@ -135,7 +136,7 @@ def gen_case(rng, tier, kind=None):
                 idx = rs.choice(n, size=k, replace=False)
                 init = sig6(X[idx] + rs.randn(k, d) * 0.05 * (X.std(axis=0) + 1e-9))
                 if case.get("grid"):
-                    init = rs.randint(-3, 4, size=(k, d)).astype(float)
+                    init = rs.randint(-3, 4, size=(k, d)).astype(float) * case["grid"]
                 if k > 1 and rng.random() < 0.08:
                     # a centroid far from all data: its cluster stays empty
                     init[-1] = init[-1] + 1e3 * (np.abs(X).max() + 1.0)
